@@ -20,7 +20,7 @@ import (
 
 var benignFaults = []string{"resegment", "dribble", "random-cuts", "latency", "jitter", "short-read", "finite-window", "starved-node", "deadline-retry", "preempt", "short-reads-from-rand"}
 var benignReach = []string{"A1-proto-mismatch", "A2-version", "A3-no-suite", "A4-ecdhe-gm", "A5-missing-certs", "A6-server-verify", "A7-client-auth", "A8-callback-error", "A9-complete",
-	"gm-cbc", "gm-gcm", "tls10", "tls11", "tls12", "client-cert-sent", "callbacks-cert", "getconfigforclient", "payload>=16k", "payload-0", "stdlib-client", "stdlib-server", "wire-decoded", "vhost-second-name", "timeout-retried", "auto-gm", "auto-tls", "wire-decoded-tls12", "alpn-negotiated", "client-chain-with-intermediate"}
+	"gm-cbc", "gm-gcm", "tls10", "tls11", "tls12", "client-cert-sent", "callbacks-cert", "getconfigforclient", "payload>=16k", "payload-0", "stdlib-client", "stdlib-server", "wire-decoded", "vhost-second-name", "timeout-retried", "auto-gm", "auto-tls", "wire-decoded-tls12", "alpn-negotiated", "client-chain-with-intermediate", "certificate-message-over-one-record"}
 
 func init() {
 	register(Family{Name: "tls-benign", Prop: "C06", ID: 601, Weight: 1, FaultNames: benignFaults, ReachNames: benignReach, Run: runTLSBenign})
@@ -93,6 +93,7 @@ type benignParams struct {
 	SrvChain     int  // GM: 0 direct leaf, 1 via intermediate
 	SrvMissing   bool // GMSSL server configured with the signing certificate only
 	VHost        bool // the server holds two identities; the client asks for the second name (server2.sim)
+	BigChain     bool // certificate chains padded with unrelated certificates of the same family until the Certificate message exceeds one record (16 KiB)
 	OuterCfg     int  // SrvCertSrc 2: policy fields of the listener configuration: 0 same as the per-connection one, 1 permissive decoy, 2 restrictive decoy
 }
 
@@ -233,10 +234,30 @@ func drawBenignParams(c *simkit.Choice) benignParams {
 	if p.SrvCertSrc == 2 {
 		p.OuterCfg = c.Weighted([]int{1, 2, 2}, simkit.LScen)
 	}
+	p.BigChain = c.Bool(1, 10, simkit.LScen)
 	return p
 }
 
 var errCallback = errors.New("verifsim: injected callback error")
+
+// bigExtras returns unrelated certificates of one family (SM2 or RSA/ECDSA),
+// repeated until they add up to more than one record's worth of bytes: a chain
+// carrying them makes the Certificate message span two records. They are
+// harmless to verification (extra candidates for intermediates).
+func bigExtras(gm bool) [][]byte {
+	names := []string{"rsaInt", "tlsrsa2", "tlsclirsa", "tlswild", "tlscliint", "tlsclienc", "forgedrsa-srv"}
+	if gm {
+		names = []string{"caAint", "srv2-sign", "srv2-enc", "cliB", "srvB-sign", "srvwild-sign", "cliint", "srvother-sign"}
+	}
+	var out [][]byte
+	total := 0
+	for i := 0; total < 17500; i++ {
+		d := pki.DER(names[i%len(names)])
+		out = append(out, d)
+		total += len(d) + 3
+	}
+	return out
+}
 
 const (
 	vComplete    = 1
@@ -440,7 +461,7 @@ func gmOnly(l []uint16) []uint16 {
 
 func (p *benignParams) String() string {
 	return fmt.Sprintf("alpn=%v/%v curves=%v smode=%d cgm=%v peer=%d csuites=%x ssuites=%x prefsrv=%v cver=[%x,%x] sver=[%x,%x] auth=%d ccert=%d cas=%v ssrc=%d csrc=%d tick=%v dyn=%v skey=%d cberr=%d cverify=%d chain=%d missing=%v vhost=%v",
-		p.CProtos, p.SProtos, p.Curves, p.SMode, p.CGM, p.Peer, p.CSuites, p.SSuites, p.PreferServer, p.CMin, p.CMax, p.SMin, p.SMax, p.ClientAuth, p.ClientCert, p.SrvClientCAs, p.SrvCertSrc, p.CliCertSrc, p.Tickets, p.DynOff, p.SrvKey, p.CallbackErr, p.CVerify, p.SrvChain, p.SrvMissing, p.VHost) + fmt.Sprintf(" outer=%d", p.OuterCfg)
+		p.CProtos, p.SProtos, p.Curves, p.SMode, p.CGM, p.Peer, p.CSuites, p.SSuites, p.PreferServer, p.CMin, p.CMax, p.SMin, p.SMax, p.ClientAuth, p.ClientCert, p.SrvClientCAs, p.SrvCertSrc, p.CliCertSrc, p.Tickets, p.DynOff, p.SrvKey, p.CallbackErr, p.CVerify, p.SrvChain, p.SrvMissing, p.VHost) + fmt.Sprintf(" outer=%d bigchain=%v", p.OuterCfg, p.BigChain)
 }
 
 // serverConfig builds the gmtls server configuration.
@@ -460,6 +481,10 @@ func (p *benignParams) serverConfig(s *simkit.Sim, ent *simkit.Stream, res *endR
 		std = pki.GMStd("tlsrsa")
 	}
 	sign2, enc2, std2 := pki.GM("srv2-sign"), pki.GM("srv2-enc"), pki.GMStd("tlsrsa2")
+	if p.BigChain {
+		std.Certificate = append(std.Certificate, bigExtras(false)...)
+		std2.Certificate = append(std2.Certificate, bigExtras(false)...)
+	}
 	fill := func(c *gmtls.Config) {
 		switch p.SMode {
 		case modeGM:
@@ -675,6 +700,11 @@ func (p *benignParams) clientConfig(s *simkit.Sim, ent *simkit.Stream, res *endR
 		x := pki.GMStd("tlsrsa") // a certificate without clientAuth usage from the same CA is still "rooted"; use an SM2-CA one instead
 		x = pki.GMStd("srvrsa")
 		cc = &x
+	}
+	if cc != nil && p.BigChain && p.ClientCert != 2 {
+		// (not for the untrusted certificate: the extras are issued by the trusted CA and
+		// would make the chain match the server's acceptable-CA list)
+		cc.Certificate = append(cc.Certificate, bigExtras(p.CGM)...)
 	}
 	if cc != nil && p.ClientLeaf {
 		cc.Leaf = pki.Cert(map[bool]map[int]string{true: {1: "cli", 2: "cliB", 3: "cliint"}, false: {1: "tlsclirsa", 2: "srvrsa", 3: "tlscliint"}}[p.CGM][p.ClientCert])
@@ -1057,6 +1087,9 @@ func runTLSBenign(c *simkit.Choice, r *simkit.Rec) {
 			r.Violate("peer-certs", site+"/client-cert", fmt.Sprintf("client certificate presented=%v but server sees %d peer certificates [%s]", pres, len(sv.peer), p.String()))
 			return
 		}
+		if p.BigChain && ((pres && p.ClientCert != 2) || !p.CGM) {
+			r.Reach(idx(benignReach, "certificate-message-over-one-record"))
+		}
 		if pres {
 			r.Reach(idx(benignReach, "client-cert-sent"))
 			want := map[bool]map[int]string{true: {1: "cli", 2: "cliB", 3: "cliint"}, false: {1: "tlsclirsa", 2: "srvrsa", 3: "tlscliint"}}[p.CGM][p.ClientCert]
@@ -1244,6 +1277,9 @@ func stdClientRun(p *benignParams, raw *simkit.Conn, ent *simkit.Stream, plan *a
 	case 3:
 		cfg.Certificates = []tls.Certificate{{Certificate: [][]byte{pki.DER("tlscliint"), pki.DER("rsaInt")}, PrivateKey: pki.StdKey("tlscliint")}}
 	}
+	if p.BigChain && len(cfg.Certificates) == 1 && p.ClientCert != 2 {
+		cfg.Certificates[0].Certificate = append(cfg.Certificates[0].Certificate, bigExtras(false)...)
+	}
 	conn := tls.Client(raw, cfg)
 	e.HsErr = conn.Handshake()
 	stdState(conn, e)
@@ -1261,6 +1297,9 @@ func stdServerRun(p *benignParams, raw *simkit.Conn, ent *simkit.Stream, plan *a
 		name = "tlsp256"
 	}
 	cfg.Certificates = []tls.Certificate{{Certificate: [][]byte{pki.DER(name)}, PrivateKey: pki.StdKey(name)}}
+	if p.BigChain {
+		cfg.Certificates[0].Certificate = append(cfg.Certificates[0].Certificate, bigExtras(false)...)
+	}
 	cfg.CipherSuites = stdSuites(p.SSuites)
 	cfg.NextProtos = p.SProtos
 	cfg.MinVersion, cfg.MaxVersion = effVers(p.SMin, tls.VersionTLS10), effVers(p.SMax, tls.VersionTLS12)
